@@ -92,6 +92,17 @@ def _replay(v):
                         pass            # BOOL is canonically 0x00 / 0xFF: non-canonical octets are not regenerated
                     elif bytes(again) != want:
                         out.append("typed_data(%s).produce(parse) differs" % t)
+        elif k == "struct":
+            m = W.dd({"structure_tag": v["handle"], "data": {"input": bytearray(v["raw"])}})
+            same("typed_data.produce(STRUCT)", parser.typed_data.produce(m, tag_type=0x02A0))
+            # (a handle without any record octets is, like a typed-data field of zero elements, produced but not parsed)
+            data, sent, term, exc = W.run_parser(parser.typed_data(tag_type=0x02A0, context="td", terminal=True), v["b"]) if v["raw"] else ({}, len(v["b"]), True, "")
+            td = data.get("td", {}) if v["raw"] else {"structure_tag": v["handle"]}
+            if exc or not term or sent != len(v["b"]) or td.get("structure_tag") != v["handle"] \
+               or bytes(bytearray(td.get("data.input") or b"")) != bytes(bytearray(v["raw"])):
+                out.append("typed_data(STRUCT) parse differs: %s %r" % (exc, dict(td)))
+            elif v["raw"]:
+                same("typed_data.produce(parse STRUCT)", parser.typed_data.produce(td, tag_type=0x02A0))
         elif k in ("lreq", "lrpy", "msp"):
             cfg = v["cfg"]
             if k == "lreq":
